@@ -12,7 +12,6 @@
 (***************************************************************************)
 EXTENDS TraceBase, CvssTables
 
-VARIABLE l
 
 \* Renderings of a tenth with at most one decimal digit.  IEEE negative zero is the
 \* number 0 and prints as "-0": it satisfies the property as worded (a multiple of 0.1
@@ -46,9 +45,7 @@ Verdict(ev) ==
                        ELSE "relation:" \o ev.rel \o " fails with " \o TenthStr(ev.lo) \o " vs " \o TenthStr(ev.hi) \o " (CVSS " \o ev.ver \o ")"
     [] OTHER -> "harness:unknown event"
 
-Init == LoadTrace /\ l = 1
-Next == /\ l <= Len(Trace)
-        /\ LET v == Verdict(Trace[l]) IN IF v = "ok" THEN TRUE ELSE Report(l, v, "")
-        /\ l' = l + 1
-Spec == Init /\ [][Next]_l
+Init == LoadTrace /\ TraceInit
+Next == (l <= Len(Trace) /\ Step(Verdict(Trace[l]))) \/ Finish
+Spec == Init /\ [][Next]_<<l, nbad>>
 =============================================================================
